@@ -1156,6 +1156,14 @@ func runAlias(c *Ctx) {
 				ternary(fresh, "slice was re-created in this function before the store", "writes through the caller's/memoized backing array"))
 		})
 	}
+	// … and no function appends onto a shortened alias of a slice it is still reading (the appends would overwrite the
+	// unread elements)
+	for _, f := range append(append([]*ssa.Function{}, p.ArgFuncs()...), p.GraphFuncs()...) {
+		if hz := sliceReuseHazard(p, f); hz != "" {
+			c.R.Add("ALIAS", core.FuncName(f)+"|append-onto-shortened-alias", core.FuncName(f), p.Pos(f.Pos()), false,
+				"no function appends onto a shortened re-slice of a slice whose elements it still reads", hz)
+		}
+	}
 	if n == 0 {
 		c.R.Add("ALIAS", "no element stores into Result.out", "(package)", "-", true, "no function overwrites elements of a Result's outputs", "none found")
 	}
@@ -1251,7 +1259,7 @@ func runHash(c *Ctx) {
 		c.R.Add("HASH", k.Func+"|identity-not-a-rendering", core.FuncName(h), p.Pos(h.Pos()), bad == "" && n > 0,
 			"a function vertex is identified by the wrapped function's reflect.Type (or a pointer), not by a printed form of it", ternary(bad == "", "reflect.Type / pointer identity", bad))
 	}
-	// distinct kinds use distinct format strings
+	// distinct kinds use distinct format strings (a Sprintf format, or the constant skeleton of a concatenation)
 	fm := map[string]string{}
 	for _, kind := range []string{k.Value, k.Arg, k.Out} {
 		if h := p.Method(p.Arg, kind, "Hashcode"); h != nil {
@@ -1262,6 +1270,43 @@ func runHash(c *Ctx) {
 					}
 				}
 			})
+			if _, has := fm[kind]; !has {
+				for _, r := range core.Returns(h) {
+					for _, o := range core.ReturnOperand(r, 0) {
+						v := o
+						if mi, ok := v.(*ssa.MakeInterface); ok {
+							v = mi.X
+						}
+						if lv := flattenConcat(v); len(lv) > 1 {
+							sk := ""
+							for _, leaf := range lv {
+								if s, ok := core.ConstString(leaf); ok {
+									sk += s
+								} else {
+									sk += "%s"
+								}
+							}
+							fm[kind] = sk
+						}
+					}
+				}
+			}
+			// the type enters the identity as itself or through String() — never through a coarser projection
+			// (PkgPath()+Name() are empty for every unnamed type, Kind() merges all types of a kind)
+			proj := ""
+			core.Instrs(h, func(in ssa.Instruction) {
+				cl, ok := in.(*ssa.Call)
+				if !ok || !cl.Common().IsInvoke() || core.TypeStr(cl.Common().Value.Type()) != "reflect.Type" {
+					return
+				}
+				if fr, ok := core.AsFieldLoad(cl.Common().Value); ok && fr.Owner == kind && fr.Field == "Type" {
+					if m := cl.Common().Method.Name(); m != "String" {
+						proj = "reflect.Type." + m + "() at " + p.InstrPos(in)
+					}
+				}
+			})
+			c.R.Add("HASH", kind+"|type-as-itself", core.FuncName(h), p.Pos(h.Pos()), proj == "",
+				"the type enters the vertex identity as the reflect.Type itself or its String(), not through a coarser projection of it", ternary(proj == "", "String()/the value", "identity uses "+proj))
 		}
 	}
 	distinct := len(fm) == 3 && fm[k.Value] != fm[k.Arg] && fm[k.Arg] != fm[k.Out] && fm[k.Value] != fm[k.Out]
